@@ -46,7 +46,8 @@ func main() {
 	c := core.New("C05", "fault_enumeration")
 	c.SetRule("cases: (stress) one run of 2-16 concurrent appenders with unique self-describing payloads, readers, reopen and re-append; " +
 		"(interleave) one directed two-appender schedule where appender A is parked inside its page store until B has published k messages; " +
-		"(crash) one image of the queue directory taken after an individual store (payload bytes, index fields, appended-sequence) of an append. " +
+		"(crash) one image of the queue directory taken after an individual store (payload bytes, index fields, appended-sequence) of an append; " +
+		"(gcroll) one round of GC() releasing acknowledged index pages while the appender rolls over to a new index page, read back in the same process and after reopen. " +
 		"Non-trivial = stress/interleave run in which a Put was called while another appender was inside its page store (overlap observed at the page wrapper), " +
 		"or an image strictly inside an append, or a reopen placed at a page boundary; distinct by (kind, index, image hash).")
 	c.Assume("process-kill fault model: dirty MAP_SHARED pages survive; torn 8-byte stores are not modelled")
@@ -70,6 +71,9 @@ func main() {
 	}
 	if !c.Quick() {
 		jobs = append(jobs, job{"indexroll", 0, false})
+	}
+	for i := 0; i < c.Pick(3, 12); i++ { // GC releasing acknowledged pages while appends roll over to a new index page
+		jobs = append(jobs, job{"gcroll", i, false})
 	}
 	scratch := c.Scratch()
 	results := make([]*caseResult, len(jobs))
